@@ -60,7 +60,8 @@ def layouts(N, tier, seed):
             for dt in dts:
                 k += 1
                 yield {'backend': 'flat', 'ext': L.FLAT_EXT[k % 4], 'offset': OFFSETS[(k // 3) % 4],
-                       'dtype': dt, 'nc': NCS[(k // 2) % 4], 'parts': parts, 'relative': k % 9 == 4, 'symlink': k % 9 == 7, 'stray': k % 9 == 2}
+                       'dtype': dt, 'nc': NCS[(k // 2) % 4], 'parts': parts, 'relative': k % 9 == 4, 'symlink': k % 9 == 7, 'stray': k % 9 == 2,
+                       'same_name': k % 9 == 5, 'mixed_ext': k % 9 == 6}
         for j, parts in enumerate(L.compositions(n)):
             if j % 3 == n % 3:
                 k += 1
@@ -95,12 +96,12 @@ def run_shard(desc, ctx):
               'parts': parts if sh % 8 < 6 else [n_], 'items': long_items, 'cols': [None, [1, 0]]}, ctx)
     # recordings made of many files (12 x 3 rows, 40 x 2 rows): every pair of rows as an index list, plus random longer lists
     if sh % 4 in (1, 3):
-        parts = [[3] * 12, [2] * 40][sh % 4 // 2]
+        parts = [[3] * 12, [2] * 40][sh % 4 // 2] if sh != 5 else [2] * 70        # (70 files: more than any plausible pool of open maps)
         n_ = sum(parts)
         rngm = np.random.default_rng([desc['seed'], sh, 202])
         pairs = [[i, j] for i in range(n_) for j in range(i + 1, n_) if (i * 31 + j) % 16 == sh]
         longer = [np.sort(rngm.permutation(n_)[:int(rngm.integers(3, 9))]).tolist() for _ in range(150)]
-        run_case({'backend': 'flat', 'ext': L.FLAT_EXT[sh % 4], 'offset': OFFSETS[sh % 4], 'dtype': DTYPES[(sh + 1) % 6], 'nc': 2,
+        run_case({'backend': 'flat', 'ext': L.FLAT_EXT[sh % 4], 'offset': OFFSETS[sh % 4] or 8, 'dtype': DTYPES[(sh + 1) % 6], 'nc': 2,
                   'parts': parts, 'items': pairs + longer + [slice(None), slice(5, n_ - 4), -1], 'cols': [None]}, ctx)
     if desc['tier'] == 'thorough':
         rng = np.random.default_rng([desc['seed'], desc['shard'], 1])
@@ -201,7 +202,9 @@ def open_layout(lay, d):
     rate = 100.
     be = lay['backend']
     if be == 'flat':
-        paths = L.write_flat(d, A, lay['parts'], offset=lay['offset'], ext=lay['ext'], stray=bool(lay.get('stray')) and nc * dt.itemsize > 1)
+        ext_ = lay['ext'] if not lay.get('mixed_ext') else [e for e in L.FLAT_EXT if e != '.mda'] if lay['ext'] != '.mda' else lay['ext']
+        paths = L.write_flat(d, A, lay['parts'], offset=lay['offset'], ext=ext_, stray=bool(lay.get('stray')) and nc * dt.itemsize > 1,
+                             same_name=bool(lay.get('same_name')))
         if lay.get('symlink'):
             # the sorting folder holds links to raw data stored elsewhere
             import os
